@@ -73,6 +73,9 @@ func Init() {
 	initDone = true
 	options.BuiltDate = "Dec 29 2020 12:34"
 	options.Action = "server" // limit() panics instead of exiting; Kill available
+	// update transactions are aborted after MaxAge seconds; a scripted transaction must
+	// not die of machine load (16 shared cores), that would look like a difference
+	db19.MaxAge = 1000000
 	db19.StartTimestamps()
 }
 
